@@ -29,4 +29,12 @@ manual acknowledgement is on; QoS 2 answers PUBREC and stores the message withou
 `c03_manual`) -/
 theorem session_handlePublish_shape : Gen.handlePublishShapeOk = true := rfl
 
+/-- T1: `Client.publish()` for QoS 1/2, under `_out_message_mutex` and in this order: refusal with MQTT_ERR_QUEUE_SIZE when
+max_queued messages are outstanding, refusal when the fresh id is still in use, the message is stored, then the window test -
+inside the window the slot is taken and the state set before `_send_publish()` is called (still under the lock), MQTT_ERR_NO_CONN
+gives the slot back and leaves the message in state `publish`; outside the window the message is queued (the shape the model's
+`publish` has: C01 `c01_accepted_stored`, C12 `c12_queue_bound`, C14 `c14_collision_refused`; seeded X39 moved `_send_publish()`
+out of the lock) -/
+theorem session_publish_shape : Gen.publishStoreShapeOk = true := rfl
+
 end Paho
